@@ -145,11 +145,22 @@ def check_algebra(ctx):
             ps = positional_params(m.node)
             arg = ps[1] if len(ps) > 1 else None
             rets = returned_exprs(m.node)
-            if len(rets) != 1:
-                ctx.undecided(R1, m.key, "expected a single return", m)
+            if not rets:
+                ctx.undecided(R1, m.key, "no return found", m)
+                continue
+            want = normal_form([(op, arg)] + SELF_STACK[cname], "self" if cname == "MatrixFactoryGate" else "W")
+            if len(rets) > 1:
+                # several exits (fast paths, special cases): each of them must be the same modifier expression -- matrices
+                # give no licence for a value-dependent re-association (e.g. inverse == dagger holds for unitaries only)
+                for i, r in enumerate(rets):
+                    try:
+                        got = normal_form(*stack_of(r, cname))
+                    except Unparsed as e:
+                        ctx.undecided(R1, f"{m.key}:return{i}", f"cannot parse {e} as a modifier expression", m)
+                        continue
+                    ctx.check(got == want, R1, f"{m.key}:return{i}", f"{short(r)} == {mname} of this gate", f"{m.qualname} has an exit returning {short(r)} with normal form {got}, but {mname} applied to a {cname} has normal form {want}: on that path the gate is re-associated in a way matrices do not allow for every wrapped gate (power/inverse, dagger and exp only commute for special matrices)", f"{m.module.relpath}:{getattr(r, 'lineno', m.node.lineno)}")
                 continue
             r = rets[0]
-            want = normal_form([(op, arg)] + SELF_STACK[cname], "self" if cname == "MatrixFactoryGate" else "W")
             if isinstance(r, ast.IfExp):
                 # only accepted shape: `self if self.is_hermitian else Dagger(self)` in the base gate's dagger
                 ok = cname == "MatrixFactoryGate" and mname == "dagger" and norm(r.test) == "self.is_hermitian" and norm(r.body) == "self"
